@@ -1357,6 +1357,62 @@ def r2_derived_instances(program, rep):
               "tree", construct="derived fields", node=c)
 
 
+def r3_child_search(program, rep):
+    """Looking a field up below a node tries EVERY enabled child: several
+    child scopes of one node can be enabled at once (two selector fields,
+    each opening its own scope), and the field wanted may be in any of them.
+    A search that returns - or gives up - on the first child it enters never
+    looks at the others: fields that are present are reported unavailable."""
+    m = program.module("rig.bitfield")
+    n_sites = 0
+    for q, fn in sorted(m.defs.items()):
+        if not isinstance(fn, ast.FunctionDef) or \
+                not q.startswith("BitField._Tree."):
+            continue
+        for lp in ast.walk(fn):
+            if not (isinstance(lp, ast.For) and any(
+                    isinstance(c, ast.Call) and
+                    call_name(c)[0] == "_enabled_children"
+                    for c in ast.walk(lp.iter))):
+                continue
+            rec = [r for r in ast.walk(lp) if isinstance(r, ast.Return) and
+                   r.value is not None and any(
+                       isinstance(c, ast.Call) and
+                       call_name(c)[0] == fn.name and
+                       isinstance(c.func, ast.Attribute)
+                       for c in ast.walk(r.value))]
+            for r in rec:
+                n_sites += 1
+                # the innermost try around the recursive return, inside the
+                # loop, whose handler falls through to the next child
+                t = getattr(r, "_parent", None)
+                while t is not None and t is not lp and \
+                        not isinstance(t, ast.Try):
+                    if isinstance(t, ast.If):
+                        # entered only for a child picked by a test of its
+                        # own: which children that admits is not read
+                        raise AnalysisError("%s: a child is searched only "
+                                            "under a test; not analysed" % q)
+                    t = getattr(t, "_parent", None)
+                ok = isinstance(t, ast.Try) and any(
+                    not any(isinstance(x, (ast.Raise, ast.Return,
+                                           ast.Break))
+                            for x in ast.walk(h))
+                    for h in t.handlers)
+                rep.check(ok, "C08-R3", "rig.bitfield:" + q, "the search "
+                          "below a node goes on to the next enabled child "
+                          "when one child does not have the field",
+                          construct="child search %s" % fn.name, node=r,
+                          fail="%s returns what the FIRST enabled child "
+                               "answers and lets that child's "
+                               "UnavailableFieldError end the search: a "
+                               "field in a later enabled child is reported "
+                               "unavailable" % q)
+    if not n_sites:
+        raise AnalysisError("_Tree: no search over the enabled children in "
+                            "the form analysed")
+
+
 def check(program, rep):
     program.module("rig.bitfield")
     rep.guard("C08-R1", r1_accept, program, rep)
@@ -1365,6 +1421,7 @@ def check(program, rep):
     rep.guard("C08-R2", r2_derived_instances, program, rep)
     rep.guard(["C08-R3", "C08-R4"], r3_masks, program, rep)
     rep.guard("C08-R3", r3_walks, program, rep)
+    rep.guard("C08-R3", r3_child_search, program, rep)
     rep.guard("C08-R4", r4_order, program, rep)
     rep.guard("C08-R4", r4_children, program, rep)
     rep.guard("C08-R5", r5_widths, program, rep)
